@@ -125,6 +125,12 @@ def run(m, chk):
         shape = True
     okn = shape and any(c.callees and c.callees[0].qual == EQ for c in r.root(NE).calls)
     chk.ob("NEGATION", f"{NE} returns `not` of {EQ} on the same operands", okn, loc=f"curves.py:{nfi.node.lineno}", detail="" if okn else f"{NE}: is not the plain negation of {EQ}: `{seg(rets[0], 60) if rets else '?'}`", func=NE, construct="__ne__ not the negation of __eq__")
+    # `A != B` is `not A.__eq__(B)`: __eq__ has to answer with a bool — NotImplemented is truthy, so `!=` would be False where `==`
+    # (after Python's fallback to identity) is False as well
+    ni = [x for x in ast.walk(ctx.fi.node) if isinstance(x, ast.Return) and x.value is not None and any(isinstance(y, ast.Name) and y.id == "NotImplemented" for y in ast.walk(x.value))]
+    chk.ob("NEGATION", f"{EQ} never answers NotImplemented (its negation {NE} would turn that into False)", not ni, loc=r.loc(ctx, ni[0]) if ni else r.loc(ctx, ctx.fi.node),
+           detail="" if not ni else f"{EQ}: `{seg(ni[0], 60)}` can answer NotImplemented; {NE} returns `not self.__eq__(obj)` and NotImplemented is truthy, so for such operands A != B is False while A == B is False too — `!=` is not the negation of `==`",
+           func=EQ, construct="__eq__ may return NotImplemented")
     first = [n for n in r.stmt_nodes(ctx) if n.kind == "test"]
     first = min(first, key=lambda n: n.id) if first else None
     okg = False
@@ -132,7 +138,15 @@ def run(m, chk):
         txt = seg(first.ast)
         is_type = ("type(" in txt or "isinstance(" in txt)
         arm = [t for t, lab in first.succ if lab == ("t" if "not" in txt else "f")]
-        retf = arm and isinstance(ctx.cfg.nodes[arm[0]].ast, ast.Return) and isinstance(ctx.cfg.nodes[arm[0]].ast.value, ast.Constant) and ctx.cfg.nodes[arm[0]].ast.value.value is False
+        def all_false(e):
+            """a returned expression that is False (possibly only for some kinds of operand: `X if isinstance(..) else False`)"""
+            if isinstance(e, ast.Constant):
+                return e.value is False
+            if isinstance(e, ast.IfExp):
+                return all_false(e.body) or all_false(e.orelse)
+            return False
+
+        retf = arm and isinstance(ctx.cfg.nodes[arm[0]].ast, ast.Return) and ctx.cfg.nodes[arm[0]].ast.value is not None and all_false(ctx.cfg.nodes[arm[0]].ast.value)
         before = [n for n in r.stmt_nodes(ctx) if n.id < first.id and n.kind != "entry" and not (isinstance(n.ast, ast.Expr) and isinstance(n.ast.value, ast.Constant))]
         okg = bool(is_type and retf and not before)
     chk.ob("TYPE-GUARD", f"{EQ}: the first statement returns False for a non-curve", okg, loc=r.loc(ctx, first.ast) if first is not None else "", detail="" if okg else f"{EQ}: comparing with a non-curve does not return False before anything else is touched", func=EQ, construct="missing leading type guard")
